@@ -210,16 +210,27 @@ Proof.
   split; [|split]; [apply tss_derive_m0|apply tss_derive_t1|apply tss_derive_fa]; try assumption; lra.
 Qed.
 Print Assumptions C17_derivatives_tss.
-(* WASABI / WASABITI: only the parameters outside the sinc (c, d; t1); d/d b0_shift and d/d relative_b1 are compared with
-   autograd case by case (wasabi_d_b0, wasabi_d_rb1) but not proved to be the derivative *)
-Theorem C17_derivatives_wasabi_partial : forall b0 rb1 c d b1n g off tp,
+(* WASABI / WASABITI: all parameters; for d/d b0_shift under B1 <> 0 and for d/d relative_b1 off resonance (there the sinc
+   argument stays away from 0 along the whole line, so the code is the sin(pi w)/(pi w) expression as a function of that
+   parameter).  _partial: d/d relative_b1 exactly on resonance (offset = b0_shift) is not covered. *)
+Theorem C17_derivatives_wasabi_partial : forall b0 rb1 c d b1n g off tp, tp <> 0 ->
   is_derive (fun x => wasabi_code b0 rb1 x d b1n g off tp) c (wasabi_d_c b0 rb1 c d b1n g off tp) /\
-  is_derive (fun x => wasabi_code b0 rb1 c x b1n g off tp) d (wasabi_d_d b0 rb1 c d b1n g off tp).
-Proof. intros. split; [apply wasabi_derive_c|apply wasabi_derive_d]. Qed.
+  is_derive (fun x => wasabi_code b0 rb1 c x b1n g off tp) d (wasabi_d_d b0 rb1 c d b1n g off tp) /\
+  (b1n * rb1 * g <> 0 -> is_derive (fun x => wasabi_code x rb1 c d b1n g off tp) b0 (wasabi_d_b0 b0 rb1 c d b1n g off tp)) /\
+  (off - b0 <> 0 -> is_derive (fun x => wasabi_code b0 x c d b1n g off tp) rb1 (wasabi_d_rb1 b0 rb1 c d b1n g off tp)).
+Proof.
+  intros. split; [apply wasabi_derive_c|]. split; [apply wasabi_derive_d|].
+  split; intro; [apply wasabi_derive_b0|apply wasabi_derive_rb1]; assumption.
+Qed.
 Print Assumptions C17_derivatives_wasabi_partial.
-Theorem C17_derivatives_wasabiti_partial : forall b0 rb1 t1 b1n g off tp trec, t1 <> 0 ->
-  is_derive (fun x => wasabiti_code b0 rb1 x b1n g off tp trec) t1 (wasabiti_d_t1 b0 rb1 t1 b1n g off tp trec).
-Proof. exact wasabiti_derive_t1. Qed.
+Theorem C17_derivatives_wasabiti_partial : forall b0 rb1 t1 b1n g off tp trec, t1 <> 0 -> tp <> 0 ->
+  is_derive (fun x => wasabiti_code b0 rb1 x b1n g off tp trec) t1 (wasabiti_d_t1 b0 rb1 t1 b1n g off tp trec) /\
+  (b1n * rb1 * g <> 0 -> is_derive (fun x => wasabiti_code x rb1 t1 b1n g off tp trec) b0 (wasabiti_d_b0 b0 rb1 t1 b1n g off tp trec)) /\
+  (off - b0 <> 0 -> is_derive (fun x => wasabiti_code b0 x t1 b1n g off tp trec) rb1 (wasabiti_d_rb1 b0 rb1 t1 b1n g off tp trec)).
+Proof.
+  intros. split; [apply wasabiti_derive_t1; assumption|].
+  split; intro; [apply wasabiti_derive_b0|apply wasabiti_derive_rb1]; assumption.
+Qed.
 Print Assumptions C17_derivatives_wasabiti_partial.
 
 (* ================= shapes ======================================================================================== *)
@@ -249,15 +260,19 @@ Proof. reflexivity. Qed.
 Example C17_branch_example : constraint_fwd XNegInf XPosInf 1 1 0 = NonReal /\ constraint_fwd XNone XNone 1 1 0 = Ok 0.
 Proof. split; reflexivity. Qed.
 
-(* ---- the shape computation as the implementation does it (rank taken from the FIRST parameter; reshape of a 0-dim tensor) ---- *)
+(* ---- the shape computation as the implementation does it (rank taken from the FIRST parameter) ---- *)
 Theorem C17_shape_impl_partial : forall T ts p0 pbc, length p0 = length pbc ->
   model_shape_impl (T :: ts) p0 pbc [] = match model_out_shape (T :: ts) pbc with Some r => ShapeOk r | None => BroadcastError end.
 Proof. exact model_shape_impl_documented. Qed.
 Print Assumptions C17_shape_impl_partial.
-Theorem C17_seqparam_impl_partial : forall ss ps, (ss <> [] \/ ps <> []) -> (length ss <= length ps)%nat ->
-  unsqueeze_right_impl ss (length ps - length ss) = Some (seqparam_shape ss ps).
-Proof. exact seqparam_impl_ok. Qed.
-Print Assumptions C17_seqparam_impl_partial.
+Theorem C17_shape_impl_seqparam_partial : forall tshape p0 pbc ss, length p0 = length pbc ->
+  model_shape_impl tshape p0 pbc [ss] =
+  match model_out_shape tshape pbc with
+  | Some r => match broadcast r (seqparam_shape ss pbc) with Some r' => ShapeOk r' | None => BroadcastError end
+  | None => BroadcastError
+  end.
+Proof. exact model_shape_impl_seqparam. Qed.
+Print Assumptions C17_shape_impl_seqparam_partial.
 (* a first parameter of lower rank than another one (scalar m0, t1 map): the time axis is not put first - silently when the
    sizes happen to match, with a broadcasting error otherwise (finding KF-C17-2) *)
 Theorem C17_shape_first_param_rank_refuted :
@@ -265,8 +280,6 @@ Theorem C17_shape_first_param_rank_refuted :
   /\ model_shape_impl [3]%nat [] [2; 2]%nat [] = BroadcastError /\ model_out_shape [3]%nat [2; 2]%nat = Some [3; 2; 2]%nat.
 Proof. exact shape_first_param_rank_counterexample. Qed.
 Print Assumptions C17_shape_first_param_rank_refuted.
-(* 0-dim parameters together with a 0-dim sequence parameter: unsqueeze_right(x, 0) calls x.reshape() (finding KF-C17-3) *)
-Theorem C17_shape_scalar_seqparam_refuted : forall T,
-  model_shape_impl [T] [] [] [[]] = ReshapeTypeError /\ model_out_shape [T] [] = Some [T].
-Proof. exact shape_scalar_seqparam_counterexample. Qed.
-Print Assumptions C17_shape_scalar_seqparam_refuted.
+(* 0-dim parameters with 0-dim sequence parameters (unsqueeze_right(x, 0) of a 0-dim tensor, repaired in /repo): shape (T) *)
+Example C17_shape_scalar_seqparam : model_shape_impl [4]%nat [] [] [[]; []; []] = ShapeOk [4]%nat.
+Proof. reflexivity. Qed.
